@@ -36,9 +36,41 @@ where both promise it: index-index joins with known divisions on both sides,
 merge_asof (one row per left row, in left order), concat axis=0 without
 interleaving (partition order = input order), concat axis=1 with identical indexes.
 
+Labels
+------
+``<facet>:<input-feature predicate>:<symptom>``; symptoms: ``columns``, ``rows`` (lost / duplicated /
+NaN-filled rows under a named predicate; ``length`` / ``values`` under ``other``), ``index``,
+``index-name``, ``name``, ``dtype``, ``order`` or ``ExcType@file:function`` of the innermost dask
+frame of the root cause (``Expr.__getattr__`` wraps metadata errors in RuntimeError).  Predicates
+are computed from the description and the lowered plan (see ``_merge_pred`` / ``_concat_pred``).
+
 Calibration
 -----------
-(filled in from the runs on the unchanged tree; see the end of the file)
+False alarms corrected (the check, not dask, was wrong):
+
+* index-index joins with known divisions: comparing the full row order with pandas alarmed on
+  many-to-many duplicate index labels (exhaustive block, ``how=inner``: pandas itself does not return
+  such a join sorted; its order comes from ``Index.join``).  The promise is "sorted by the index":
+  the order facet now demands a monotonic result index whenever the pandas result index is monotonic.
+* the shared classifier keys on the word "index" and called a wrong value in a key column an index
+  difference for column merges (``check_index=False``); the symptom is now derived by comparing
+  again without the index (and without names).
+* dtypes are compared after the rows, on their own: a wrong row set also changes null-fill upcasts
+  and had produced two labels for one defect.
+* merge_asof with an EMPTY left frame (``from_pandas`` gives unknown divisions (None, None)): dask
+  raises "merge_asof input must be sorted!" / IndexError in ``compute_current_divisions``.  The
+  domain of merge_asof is "sorted with known divisions" (dask docs), so left frames have >= 1 row.
+* NA (None) in a str / categorical INDEX: ``from_pandas`` documents NotImplementedError; NA keys are
+  put into an index only for float keys and unsorted (unknown divisions).
+* pandas right operand with NaN in its float index: dask calls ``from_pandas(sort=True)`` itself and
+  builds divisions from NaN (TypeError at assembly): divisions truthfulness is C41's subject; the
+  pandas-operand variant is generated without NA keys.
+* concat axis=1 with non-identical indexes holding duplicates: pandas raises InvalidIndexError;
+  non-identical indexes are generated unique.
+* the C41 divisions monitor was dropped from this module (it recomputed every partition; divisions are
+  not part of the statement).
+
+Genuine differences are listed in ``PENDING`` and written up in ``findings_proposed/C39.md``.
 """
 from __future__ import annotations
 
@@ -151,7 +183,7 @@ def _rand_merge(rng, rand_partition_desc):
          "nl": nl, "nr": nr, "kd": kd, "form": form, "universe": universe, "shift": rng.choice((0, 0, 1, 2)),
          "nakeys": nakeys, "ksort": ksort, "how": how, "suffixes": suffixes, "indicator": ind,
          "broadcast": rng.choice(BROADCAST), "shuffle": rng.choice(SHUFFLE),
-         "npart": rng.choice((None, None, None, 1, 2, 4, 7)) if api != "dd.merge" or True else None,
+         "npart": rng.choice((None, None, None, 1, 2, 4, 7)),
          "lpart": rand_partition_desc(rng, nl, allow_unknown=True), "rpart": rand_partition_desc(rng, nr, allow_unknown=True),
          "lindex": rng.choice(("range", "range", "sorted", "dups", "unsorted")),
          "rindex": rng.choice(("range", "range", "sorted", "dups", "unsorted"))}
@@ -1036,18 +1068,73 @@ def run_case(case, ctx):
             ctx.violation("%s:other:uncomparable" % facet, "%s: %s" % (type(ex).__name__, ex))
 
 
-RULE = "draft"
+RULE = ("cases = one description per program: merge (frame seeds/rows, key dtype int/str/float/categorical/datetime/"
+        "int-vs-float, key universe and shift [duplicates, keys missing on either side], NA keys, key form [on 1-2 columns, "
+        "left_on/right_on, both indexes, column-index, on=<index name>, default keys], how incl. leftsemi, suffixes, "
+        "indicator, api dd.merge/DataFrame.merge/DataFrame.join, broadcast None/True/False/float, shuffle_method "
+        "None/tasks/disk, npartitions=, partitioning of both sides incl. empty partitions and unknown divisions, optional "
+        "pandas right operand, optional second merge on the same key), merge_asof (key dtype, on/left_on+right_on/"
+        "indexes/left_on+right_index, by, direction, tolerance, allow_exact_matches, duplicates, 1-6 partitions per side "
+        "with known divisions), concat axis=0 (2-3 DataFrames/Series, column subsets, index family, stacked or overlapping "
+        "divisions, join, interleave_partitions, ignore_unknown_divisions), concat axis=1 (known divisions with any "
+        "partitioning, or unknown divisions with identical partitioning). First the complete product how x key form x "
+        "{broadcast, hash-tasks, hash-disk} x partition counts x indicator on one fixed pair of frames, then seeded random "
+        "cases. non-trivial = both inputs >= 2 rows, >= 1 result row, some input with >= 2 partitions; distinct = distinct "
+        "description")
 ASSUMPTIONS = [
     "pandas 3.0.5 on the same frames is the reference; its refusal (exception) removes the case",
-    "how='leftsemi' has no pandas counterpart: reference = rows of left whose key tuple occurs in right (NA matches NA), written in the harness",
+    "how='leftsemi' has no pandas counterpart: reference = rows of left whose key tuple occurs in right (NA matches NA, as "
+    "in every pandas merge), left columns only, written in the harness",
     "dask.dataframe is imported through the pyarrow import stub (pandas-backed strings, convert-string=False)",
-    "scheduler='sync'; the distributed/p2p shuffle is not reachable in this environment",
+    "scheduler='sync'; the distributed/p2p shuffle is not reachable in this environment (shuffle_method='p2p' excluded)",
+    "how='cross', MultiIndex keys, DataFrame.join with a list of frames, Series/array-valued on= are not generated",
 ]
 BUDGET = {"quick": 90, "thorough": 600}
 FLOORS = {"quick": {"evaluations": 10, "distinct_nontrivial": 5}, "thorough": {"evaluations": 10, "distinct_nontrivial": 5}}
-EXHAUSTIVE_SPACE = None
+EXHAUSTIVE_SPACE = {
+    "quick": "fixed pair of frames (14 x 11 rows, int keys with duplicates and keys missing on both sides) x how in "
+             "{inner,left,right,outer,leftsemi} x key form {on, index-index, column-index, index-column} x "
+             "{broadcast=True, hash join tasks, hash join disk} x partition counts {(1,3),(3,1),(2,3),(3,2),(3,3)} x "
+             "indicator {False,True} (leftsemi: supported forms, no indicator)",
+    "thorough": "the same product with key forms {on, on 2 columns, left_on/right_on, index-index, column-index, "
+                "index-column} and partition counts {(1,1),(1,3),(3,1),(2,3),(3,2),(3,3),(2,5)}",
+}
 CASE_TIMEOUT = 90
-CLAIM = "draft"
-LEVEL_NOTE = "trusts pandas as the reference and the shared comparison discipline of vf.gen.frames"
-TECHNIQUE = "runtime monitoring: differential oracle against pandas on every computed join / concatenation"
-PENDING = {}
+CLAIM = ("Every generated merge / join / merge_asof / concat program was executed on the real dask.dataframe API "
+         "(scheduler='sync') and on pandas, and the computed frame was compared with the pandas frame: column names and "
+         "order, dtypes, and the rows as a multiset (index included for index joins, merge_asof on indexes and concat); row "
+         "order where both promise it. Which join algorithm ran (BroadcastJoin, hash join over a task or disk shuffle, "
+         "repartition of aligned divisions, single-partition blockwise) is read from the lowered expression and counted. "
+         "Held means: no difference among the executions observed, apart from the mechanisms listed as known findings.")
+LEVEL_NOTE = "trusts pandas as the reference, the harness' leftsemi reference and the shared comparison discipline of vf.gen.frames"
+TECHNIQUE = "runtime monitoring: differential oracle against pandas (row multiset, dtypes, order where promised) on every computed join / concatenation; lowered plan observed"
+PENDING = {
+    "merge:broadcast-join-then-merge-on-same-key:rows":
+        "a merge on the key of a preceding BroadcastJoin skips the shuffle (partitioning claimed by "
+        "unique_partition_mapping_columns_from_shuffle): rows lost",
+    "merge:broadcast-join&npartitions-arg-flips-broadcast-side:rows":
+        "npartitions= <= the smaller partition count: BroadcastJoin derives the broadcast side again and broadcasts the "
+        "preserved side of a left/right/leftsemi join: rows duplicated or lost",
+    "merge:leftsemi&broadcast-join&left-side-broadcast:rows":
+        "how='leftsemi' may broadcast its left input ('leftsemi' != 'left'): left rows repeated per right partition",
+    "merge:broadcast-join&how!=inner&non-broadcast-side-joined-on-index:ValueError@dataframe/backends.py:hash_object_pandas":
+        "BroadcastJoin splits the non-broadcast side on left_on/right_on, which is None for left_index/right_index",
+    "merge:column-index&datetime-key&how-keeps-index-side-rows:TypeError@dataframe/multi.py:merge_chunk":
+        "empty output partition of a column-index join on datetime keys: DatetimeIndex.astype(float64) in merge_chunk",
+    "merge:leftsemi&left_index:TypeError@dataframe/dask_expr/_collection.py:merge":
+        "how='leftsemi' with left_index=True: zip over left_on=None",
+    "merge:right-operand-is-pandas&left_index&right_on:rows":
+        "pandas right operand is turned into an index join: right_on column of left-only rows is NaN, pandas fills the key",
+    "merge:categorical-index-key:TypeError@dataframe/backends.py:_union_categoricals_wrapper":
+        "column-index join on a CategoricalIndex with an empty output partition: union_categoricals dtype mismatch at assembly",
+    "merge:null-fill-upcast-decided-per-partition:dtype":
+        "int->float64 / bool->object upcast for holes is decided per partition; pandas decides on the whole frame",
+    "concat0:first-frame-has-categorical-column&inputs-have-different-columns:columns":
+        "concat_pandas takes cat_mask from the first frame only: columns of later frames dropped (outer) / categorical kept (inner)",
+    "concat0:categorical-column&series-input:AttributeError@dataframe/backends.py:concat_pandas":
+        "same branch assumes DataFrames: Series input next to a categorical column raises (at meta or compute time)",
+    "concat0:an-input-is-empty&names-differ:name":
+        "result assembly drops empty partitions: Series name of the non-empty inputs survives, pandas/_meta say None",
+    "concat0:an-input-is-empty&names-differ:index-name":
+        "same for the index name",
+}
